@@ -149,6 +149,8 @@ def gen(seed, tier):
             kw['gas_reserve'] = rng.choice([0, 50, 150, 300, 1000, 5000])
             if rng.random() < 0.5:
                 kw['burn_reserve'] = rng.choice([0, 10, 500])
+        if rng.random() < 0.12:
+            kw['ttl'] = rng.choice([1, 5, 60, 120])
         refill = rng.random() < 0.25
         if refill:
             # the group is filled/autofilled first (a preview, or the deprecated operation_group flow) and autofilled again later,
